@@ -97,6 +97,13 @@ func NewDet(t *testing.T, nVal int) *W {
 
 	var bankGenesis banktypes.GenesisState
 	myApp.AppCodec().MustUnmarshalJSON(genesisState[banktypes.ModuleName], &bankGenesis)
+	// the default genesis supply exceeds its balances by 4000 FX; testutil/helpers gives them to a random
+	// account, here a fixed one
+	filler := sha256.Sum256([]byte("verif-genesis-filler"))
+	bankGenesis.Balances = append(bankGenesis.Balances, banktypes.Balance{
+		Address: sdk.AccAddress(filler[:20]).String(),
+		Coins:   sdk.NewCoins(sdk.NewCoin(fxtypes.DefaultDenom, sdkmath.NewIntFromUint64(4_000).MulRaw(1e18))),
+	})
 	for _, b := range balances {
 		bankGenesis.Supply = bankGenesis.Supply.Add(b.Coins...)
 	}
